@@ -114,8 +114,10 @@ func main() {
 		case <-time.After(caseDeadline()):
 			w.Ob(wire.R("hang").S("msg", "the_implementation_did_not_return_within_the_case_deadline"))
 			w.End()
+			cliCleanup()
 			os.Exit(0) // the stuck goroutine cannot be stopped; later cases are not executed
 		}
 	}
+	cliCleanup()
 	w.W.Flush()
 }
